@@ -15,6 +15,8 @@ fn ctx(args: &[String]) -> Ctx {
     Ctx {
         exe: std::env::current_exe().unwrap().to_string_lossy().to_string(),
         shim: arg(args, "--shim").unwrap_or("/verif/.build/libverif_env.so").to_string(),
+        tmp_root: arg(args, "--tmp-root").unwrap_or("/verif/.build/sessim-tmp").to_string(),
+        counter: std::sync::atomic::AtomicU64::new(0),
     }
 }
 
@@ -40,6 +42,7 @@ fn corpus(repo: &str) -> (Corpus, Value) {
     (
         Corpus {
             collisions,
+            env_names: vec![],
             base: h.keys,
             faults: workload::fault_keys(),
             derives,
@@ -63,6 +66,14 @@ fn cmd_drive(args: &[String]) -> i32 {
     if corpus.base.len() < 50 {
         eprintln!("sessim: harvest found only {} keys under {repo}/tests", corpus.base.len());
         return 2;
+    }
+    // discovery pre-pass: which environment variables do the expanders ask for? (none, on the pinned tree)
+    let mut corpus = corpus;
+    {
+        let pre = drive::run_batch(ctx.clone(), Arc::new(Corpus { collisions: corpus.collisions.clone(), base: corpus.base.clone(), faults: corpus.faults.clone(),
+                                                               derives: corpus.derives.clone(), env_names: vec![] }),
+                                   Arc::new(RefCache::new()), seed ^ 0x5eed_d15c, 0, 24, jobs, 0);
+        corpus.env_names = pre.stats.seam_names.iter().cloned().collect();
     }
     let corpus = Arc::new(corpus);
     let refs = Arc::new(RefCache::new());
@@ -100,6 +111,8 @@ fn cmd_drive(args: &[String]) -> i32 {
         "multi_worker_processes": st.multi_worker_sessions,
         "distinct_entropy_seeds": st.entropy_seeds.len(), "distinct_layouts": st.layouts.len(),
         "distinct_keys": st.keys_seen.len(), "distinct_contexts": st.contexts.len(), "distinct_nontrivial_contexts": nontrivial,
+        "environment_seams_consulted_by_the_code": {"getrandom_calls": st.seam_getrandom, "clock_calls": st.seam_clock, "getpid_calls": st.seam_getpid,
+            "getenv_calls": st.seam_getenv, "env_names": st.seam_names.iter().collect::<Vec<_>>(), "env_names_given_seeded_values": corpus.env_names},
         "selfchecked_processes": st.selfchecked, "nondeterministic_sessions": st.nondeterministic,
         "errors": st.errors.iter().take(5).collect::<Vec<_>>(), "error_count": st.errors.len(),
         "divergent_sessions": st.divergences.len(),
